@@ -1,8 +1,12 @@
 #!/bin/sh
-# usage: seedrun.sh <Cxx> <check-id>...  — applies /verif/seeded/<Cxx>/patch.diff to /repo, runs the named checks, undoes it
+# usage: seedrun.sh <Cxx> <check-id>...  — applies /verif/seeded/<Cxx>/patch.diff to /repo, runs the named checks, undoes it.
+# The evidence files of the checks are saved before and restored afterwards (they must describe the unchanged tree).
 id=$1; shift
 cd /repo && git status --short | grep -v '^??' && { echo "/repo dirty"; exit 1; }
 git -C /repo apply --3way /verif/seeded/$id/patch.diff 2>&1 | tail -2 || { echo "patch does not apply"; exit 1; }
 git -C /repo reset -q
+mkdir -p /verif/.work/evsave
+for c in "$@"; do cp /verif/evidence/$c.json /verif/.work/evsave/$c.json 2>/dev/null; done
 for c in "$@"; do (cd /verif && ./check $c | tail -3); done
+for c in "$@"; do cp /verif/.work/evsave/$c.json /verif/evidence/$c.json 2>/dev/null; done
 git -C /repo checkout -- . ; git -C /repo status --short | grep -v '^??'
